@@ -352,7 +352,9 @@ func genScenario(t *rapid.T, o genOpts) *scn.Scenario {
 		sc.Phases = append(sc.Phases, ph)
 	}
 	sc.PreShutdownSleepUs = rapid.SampledFrom([]int{0, 0, 0, 0, 200, 3000, 12000, 25000}).Draw(t, "pre_shutdown_sleep_us")
-	if sc.Sched == "free" && rapid.IntRange(0, 29).Draw(t, "long_silence") == 0 {
+	// (rapid draws the bounds of a range far more often than 1/n: an interior value keeps the share near 1/60 of
+	// the free scenarios, about 0.5 % of all; the silence job covers the targeted shape, this one the ordinary traffic)
+	if sc.Sched == "free" && rapid.IntRange(0, 59).Draw(t, "long_silence") == 17 {
 		// two seconds of silence before Shutdown: a free-running writer must have handed everything over by then
 		// (bounded liveness, see scn.Judge; normal latency is one 10 ms writer pause)
 		sc.PreShutdownSleepUs = scn.SilenceUs
@@ -365,6 +367,57 @@ func genScenario(t *rapid.T, o genOpts) *scn.Scenario {
 			StopMs:  rapid.IntRange(11, 14).Draw(t, "stutter_stop_ms"),
 			N:       rapid.IntRange(15, 40).Draw(t, "stutter_n"),
 		}
+	}
+	return sc
+}
+
+// genSilenceScenario draws the shape that puts the LAST log call of a scenario into the writer's
+// final adapter call of a batch and then stays silent: a slow adapter (pace 4: PaceUs on every write),
+// optionally a little ordinary traffic first, then one goroutine logging pairs "A, short pause, B, long
+// pause" (every pair is its own writer batch: the long pause exceeds the writer's 10 ms back-off plus
+// the adapter time), the two seconds of silence, Shutdown.
+func genSilenceScenario(t *rapid.T) *scn.Scenario {
+	sc := &scn.Scenario{Sched: "free", AdapterPace: 4}
+	sc.PaceUs = rapid.IntRange(500, 2000).Draw(t, "pace_us")
+	sc.Goroutines = rapid.IntRange(1, 3).Draw(t, "goroutines")
+	level := rapid.SampledFrom([]int{1, 1, 2, 3}).Draw(t, "init_level")
+	sc.Init = []scn.Op{{K: scn.OpLevel, Sev: level}}
+	sevAbove := func(label string) int { return rapid.IntRange(level, 6).Draw(t, label) }
+	if rapid.Bool().Draw(t, "warm_up") {
+		ph := scn.Phase{G: make([][]scn.Op, sc.Goroutines)}
+		for g := range ph.G {
+			ph.G[g] = genSeq(t, g, rapid.IntRange(0, 20).Draw(t, "warm_up_calls"), false, "free")
+		}
+		sc.Phases = append(sc.Phases, ph)
+	}
+	ph := scn.Phase{G: make([][]scn.Op, sc.Goroutines)}
+	active := rapid.IntRange(0, sc.Goroutines-1).Draw(t, "active")
+	pairs := rapid.IntRange(1, 6).Draw(t, "pairs")
+	var seq []scn.Op
+	if len(sc.Phases) > 0 && rapid.IntRange(0, 3).Draw(t, "wait_for_warm_up") > 0 {
+		// let the slow adapter finish the warm-up lines first, so that the first pair is a batch of its own
+		seq = append(seq, scn.Op{K: scn.OpSleep, Us: rapid.IntRange(40000, 90000).Draw(t, "warm_up_gap_us")})
+	}
+	for i := 0; i < pairs; i++ {
+		pkg := rapid.SampledFrom([]string{"a", "b"}).Draw(t, "pkg")
+		seq = append(seq, scn.Op{K: scn.OpLines, N: 1, Sev: sevAbove("sev_a"), Pkg: pkg})
+		seq = append(seq, scn.Op{K: scn.OpSleep, Us: rapid.IntRange(50, 2500).Draw(t, "gap_us")})
+		switch rapid.IntRange(0, 3).Draw(t, "b_kind") {
+		case 0: // a tracer submission wakes the writer through its own copy of the code (log/trace.go)
+			seq = append(seq, scn.Op{K: scn.OpTracer, Pkg: pkg, Sevs: []int{sevAbove("sev_t0"), sevAbove("sev_t1")}})
+		default:
+			seq = append(seq, scn.Op{K: scn.OpLines, N: rapid.IntRange(1, 2).Draw(t, "n_b"), Sev: sevAbove("sev_b"), Pkg: pkg, F: rapid.Bool().Draw(t, "f")})
+		}
+		if i < pairs-1 {
+			seq = append(seq, scn.Op{K: scn.OpSleep, Us: rapid.IntRange(25000, 45000).Draw(t, "batch_gap_us")})
+		}
+	}
+	ph.G[active] = seq
+	sc.Phases = append(sc.Phases, ph)
+	sc.PreShutdownSleepUs = scn.SilenceUs
+	if len(sc.Phases) == 2 && sc.LogCalls()*sc.PaceUs > scn.MaxSlowAdapterUs {
+		// the warm-up came out too long for this adapter pace (the silence clause bounds the adapter's total time)
+		sc.Phases = sc.Phases[1:]
 	}
 	return sc
 }
@@ -475,7 +528,9 @@ func record(sc *scn.Scenario, rep *scn.Report, prefix string) {
 	add(twins, "same_text_not_identical_drawn")
 	add(len(rep.Internal) > 0, "logger_internal_lines_seen")
 	add(sc.PreShutdownSleepUs > 0, "shutdown_delayed")
-	add(sc.PreShutdownSleepUs >= scn.SilenceUs && sc.Sched == "free", "free_writer_two_seconds_of_silence_before_shutdown")
+	add(sc.SilenceClauseApplies(), "free_writer_two_seconds_of_silence_before_shutdown")
+	add(sc.SilenceClauseApplies() && sc.AdapterPace == 4, "silence_with_slow_adapter")
+	add(sc.SilenceClauseApplies() && rep.LastInFinal, "last_line_logged_during_final_adapter_call_of_a_batch_then_silence")
 	stats.Case(string(raw), nontrivial, cl...)
 	kind := prefix + "scenario"
 	if stats.WantSample(kind) && len(raw) < 1500 {
@@ -491,9 +546,13 @@ func record(sc *scn.Scenario, rep *scn.Report, prefix string) {
 const batch = 4
 
 func judgeBatch(t *rapid.T, dirs []string, prefix string, o genOpts) {
+	judgeBatchOf(t, dirs, prefix, func(t *rapid.T) *scn.Scenario { return genScenario(t, o) })
+}
+
+func judgeBatchOf(t *rapid.T, dirs []string, prefix string, gen func(*rapid.T) *scn.Scenario) {
 	scs := make([]*scn.Scenario, len(dirs))
 	for i := range scs {
-		scs[i] = genScenario(t, o)
+		scs[i] = gen(t)
 	}
 	if j := os.Getenv("VERIF_JOURNAL"); j != "" {
 		// what is about to run (the replay file should this process die)
@@ -541,6 +600,21 @@ func TestPropLogStream(t *testing.T) {
 	dirs := batchDirs(t, "prop")
 	rapid.Check(t, func(t *rapid.T) {
 		judgeBatch(t, dirs, "", genOpts{minLines: 50, maxLines: 4000})
+	})
+}
+
+// TestPropSilence: bounded liveness of the free-running writer. Scenarios whose last log call falls
+// into the writer's final adapter call of a batch, followed by two seconds of silence: everything
+// must have been handed to the adapter before Shutdown is called (a lost wake-up leaves the line in
+// the buffer until the shutdown drain). The children only sleep, so a case runs twelve of them.
+func TestPropSilence(t *testing.T) {
+	const silenceBatch = 12
+	dirs := make([]string, silenceBatch)
+	for i := range dirs {
+		dirs[i] = caseDir(t, fmt.Sprintf("silence-%d", i))
+	}
+	rapid.Check(t, func(t *rapid.T) {
+		judgeBatchOf(t, dirs, "silence_", genSilenceScenario)
 	})
 }
 
